@@ -19,6 +19,7 @@
 #include <hgraph/lib/std/operators/impl/record_replay_memory_impl.h>
 #include <hgraph/lib/testing/record_replay.h>
 #include <hgraph/lib/testing/eval_node.h>
+#include <hgraph/lib/std/operators/impl/higher_order_impl.h>
 #include <hgraph/types/metadata/type_realization.h>
 #include <hgraph/types/value/value_builder.h>
 
